@@ -87,6 +87,13 @@ def run_cases(ctx, E, N, replay_case=None):
             vals = list(c.get("s", [])) + list(c.get("s2", [])) + [v for q in c.get("ss", []) for v in q]
             if c["op"] in xops and all(0 <= v <= 5 for v in vals):
                 fx.write(ln)
+        if replay_case is None:
+            # ... and every sequence of 2-4 elements over {0, 1, 2, 4, 5} (the extremes are 5 * 2^61 apart) for the ordering functions
+            import itertools as _it
+            for n in (2, 3, 4):
+                for sq in _it.product([0, 1, 2, 4, 5], repeat=n):
+                    for op, f in (("Sort", ""), ("SortBy", "id"), ("Distinct", "")):
+                        fx.write(json.dumps({"op": op, "s": list(sq), "s2": [], "ss": [], "n": 0, "e": 0, "f": f, "acc": 0}, separators=(",", ":")) + "\n")
     for inst in ("int", "string", "xint"):
         outp = os.path.join(sd, "slice_out_%s.ndjson" % inst)
         rc, so, se = core.sh([drv, "cases", xfile if inst == "xint" else cases_file, outp, inst], timeout=1800)
